@@ -23,7 +23,7 @@ var (
 	c08Bound  = flag.Int("bound", 2, "preemption bound of the exhaustive part")
 	c08Cap    = flag.Int("cap", 300, "cap on explored schedules per request set")
 	c08Random = flag.Int("random", 40, "random schedules per request set beyond the bound")
-	c08Kinds  = flag.String("kinds", "dup,inbox,like,follow,add,outbox,forward2,add2,remove2,likebad,accept2,refused,updlike,faulty", "request-set kinds")
+	c08Kinds  = flag.String("kinds", "dup,inbox,like,follow,add,outbox,forward2,add2,remove2,likebad,accept2,refused,updlike,blocked,faulty", "request-set kinds")
 )
 
 type abortSignal struct{}
@@ -488,6 +488,14 @@ func genReqSet(r *rng, kind string, k int) reqSet {
 			a := inboxAct("Create", j, remoteActors[j%3])
 			a["object"] = jmap{"type": "Note", "id": fmt.Sprintf("%s/notes/c%d-%d", remote, k, j), "content": "x"}
 			rs.reqs = append(rs.reqs, inboxScenario("conc:refused", w, cfg, a))
+		}
+	case "blocked": // deliveries from three peers, the second of whom is blocked: whatever the others do meanwhile, its activity is
+		// refused and changes nothing (each request's block check is about its own actors)
+		rs.cfg.Blocked = []string{remoteActors[1]}
+		for i := 0; i < 3; i++ {
+			a := inboxAct("Create", i, remoteActors[i])
+			a["object"] = jmap{"type": "Note", "id": fmt.Sprintf("%s/notes/c%d-%d", remote, k, i), "content": "x"}
+			rs.reqs = append(rs.reqs, inboxScenario("conc:blocked", w, rs.cfg, a))
 		}
 	case "updlike": // a client Update of an owned note while peers like and announce it: the note's likes / shares survive the Update
 		obj := local + "/notes/1"
